@@ -358,7 +358,9 @@ def attribute_pieces(ctx):
     vals = {src(subj)} if subj is not None else set()
     if isinstance(subj, ast.Name):
         vals |= {src(s_.value) for s_ in walk_func(fn) if isinstance(s_, ast.Assign) and isinstance(s_.targets[0], ast.Name) and s_.targets[0].id == subj.id}
-    ctx.check(any(P.matches(ast.parse(v_, mode="eval").body, "self.attributes[$k]") for v_ in vals), "split.subject", db.where(lp), "the pieces are not taken from the attribute's value (%s)" % sorted(vals), "re.split over self.attributes[key]")
+    # ... or the value variable of a loop over self.attributes.items()
+    itemvars = {src(l_.target.elts[1]) for l_ in ast.walk(fn) if isinstance(l_, ast.For) and P.matches(l_.iter, "self.attributes.items()") and isinstance(l_.target, ast.Tuple) and len(l_.target.elts) == 2}
+    ctx.check(any(P.matches(ast.parse(v_, mode="eval").body, "self.attributes[$k]") or v_ in itemvars for v_ in vals), "split.subject", db.where(lp), "the pieces are not taken from the attribute's value (%s)" % sorted(vals), "re.split over self.attributes[key]")
     sub = rx.parse(pat, fl)
     items = list(sub)
     ctx.check(len(items) == 1 and items[0][0] == rx.OP.SUBPATTERN and items[0][1][0] == 1, "split.keeps-expressions", db.where(lp), "the split regex %r does not capture the whole ${...}: re.split would drop the expressions" % pat, "whole ${...} captured: split keeps text and expressions in order")
